@@ -103,3 +103,117 @@ Proof.
   destruct (scale_real T v2 HT FT PT H2 I2) as [[E2 L2]|[[E2 L2]|[E2 L2]]];
     rewrite E1, E2; try apply Rabs_le_inv in L1; try apply Rabs_le_inv in L2; lra.
 Qed.
+
+(** ** x - max for finite x <= max *)
+Lemma fsub_real : forall a m, num a -> num m -> is_inf a = false -> is_inf m = false -> rk a <= rk m ->
+  let y := rnd (rk a - rk m) in
+  (rk (fsub a m) = y /\ Rabs y < bpow radix2 128) \/ (fsub a m = ninf /\ y <= - bpow radix2 128).
+Proof.
+  intros a m Ha Hm Fa Fm Le.
+  destruct (num_B a Ha) as (A & -> & HA). destruct (num_B m Hm) as (B & -> & HB).
+  assert (FB : is_finite B = true) by (destruct B; easy).
+  assert (FA : is_finite A = true) by (destruct A; easy).
+  rewrite (rk_fin B FB), (rk_fin A FA) in *.
+  unfold fsub, F32.prec, F32.emax. rewrite (SFsub_equiv 24 128 _ _). cbn zeta.
+  generalize (Bminus_correct 24 128 _ _ mode_NE A B FA FB).
+  destruct (Rlt_bool_spec (Rabs (rnd (B2R A - B2R B))) (bpow radix2 128)) as [Hlt|Hge].
+  - intros (E1 & E2 & _). left. rewrite (rk_fin _ E2), E1. now split.
+  - intros (E1 & E2). right. rewrite E1.
+    assert (Y : rnd (B2R A - B2R B) <= 0) by (rewrite <- rnd_0; apply rnd_le; lra).
+    rewrite Rabs_left1 in Hge by easy.
+    destruct (Bsign A) eqn:SA; [split; [reflexivity|lra]|].
+    exfalso. assert (0 <= B2R A) by now apply Bsign_false_ge0.
+    assert (B2R B <= 0) by (apply Bsign_true_le0; destruct (Bsign B); easy).
+    replace (B2R A - B2R B) with 0 in Hge by lra. rewrite rnd_0 in Hge.
+    assert (0 < bpow radix2 128) by apply bpow_gt_0. lra.
+Qed.
+
+Lemma sm_diff_mono : forall mx v1 v2, num mx -> mx <> ninf -> num v1 -> num v2 ->
+  rk v1 <= rk v2 -> rk v2 <= rk mx -> rk (sm_diff mx v1) <= rk (sm_diff mx v2).
+Proof.
+  intros mx v1 v2 Hm Nm H1 H2 L12 L2m.
+  assert (G0 := BIG_pos). assert (G1 := BIG_gt).
+  assert (Rm := rk_range _ Hm). assert (R1 := rk_range _ H1). assert (R2 := rk_range _ H2).
+  unfold sm_diff.
+  destruct (is_pinf v2) eqn:P2.
+  { assert (v2 = pinf) by (destruct v2 as [s|[|]| |s m e]; easy). subst v2. rewrite rk_pinf in L2m.
+    assert (mx = pinf) by (apply rk_BIG_pinf; [easy|lra]). subst mx.
+    destruct (is_pinf v1) eqn:P1; [lra|]. rewrite fsub_pinf_r; [|apply H1|easy]. rewrite rk_ninf, rk_fzero. lra. }
+  assert (P1 : is_pinf v1 = false).
+  { destruct (is_pinf v1) eqn:P1; [|easy]. exfalso.
+    assert (v1 = pinf) by (destruct v1 as [s|[|]| |s m e]; easy). subst v1. rewrite rk_pinf in L12.
+    assert (v2 = pinf) by (apply rk_BIG_pinf; [easy|lra]). now subst v2. }
+  rewrite P1.
+  destruct (is_pinf mx) eqn:Pm.
+  { assert (mx = pinf) by (destruct mx as [s|[|]| |s m e]; easy). subst mx.
+    rewrite !fsub_pinf_r; [lra|apply H2|easy|apply H1|easy]. }
+  assert (Fm : is_inf mx = false) by (destruct mx as [s|[|]| |s m e]; easy).
+  destruct (fsub_le v2 mx H2 Hm Fm L2m) as (D2 & _). assert (Rd := rk_range _ D2).
+  destruct (is_inf v1) eqn:I1.
+  { assert (v1 = ninf) by (destruct v1 as [s|[|]| |s m e]; easy). subst v1.
+    rewrite fsub_ninf_l; [rewrite rk_ninf; lra|apply Hm|]. destruct mx as [s|[|]| |s m e]; easy. }
+  assert (I2 : is_inf v2 = false).
+  { destruct (is_inf v2) eqn:I2; [|easy]. exfalso.
+    assert (v2 = ninf) by (destruct v2 as [s|[|]| |s m e]; easy). subst v2. rewrite rk_ninf in L12.
+    assert (rk v1 = - BIG) by lra. apply (rk_ninf_iff _ H1) in H. now subst v1. }
+  assert (X : rnd (rk v1 - rk mx) <= rnd (rk v2 - rk mx)) by (apply rnd_le; lra).
+  destruct (fsub_real v1 mx H1 Hm I1 Fm ltac:(lra)) as [[E1 B1]|[E1 B1]];
+  destruct (fsub_real v2 mx H2 Hm I2 Fm L2m) as [[E2 B2]|[E2 B2]].
+  - rewrite E1, E2. exact X.
+  - rewrite E1, E2, rk_ninf. apply Rabs_def2 in B1. lra.
+  - rewrite E1, rk_ninf. lra.
+  - rewrite E1, E2. lra.
+Qed.
+
+(** ** e / sum for e in [0,1] and a positive sum *)
+Lemma fdiv_real : forall e s, num e -> num s -> 0 <= rk e <= 1 -> is_inf s = false -> 0 < rk s ->
+  let y := rnd (rk e / rk s) in
+  (rk (fdiv e s) = y /\ Rabs y < bpow radix2 128) \/ (fdiv e s = pinf /\ bpow radix2 128 <= y).
+Proof.
+  intros e s He Hs Pe Fs Ps.
+  assert (G0 := BIG_pos). assert (G1 := BIG_gt).
+  destruct (num_B e He) as (A & -> & HA). destruct (num_B s Hs) as (B & -> & HB).
+  assert (FB : is_finite B = true) by (destruct B; easy).
+  assert (FA : is_finite A = true).
+  { destruct A as [sa|[|]| |sa ma ea Ha]; try easy; cbn [B2SF rk] in Pe; lra. }
+  rewrite (rk_fin B FB), (rk_fin A FA) in *.
+  assert (NZ : B2R B <> 0) by lra.
+  unfold fdiv, F32.prec, F32.emax. rewrite (SFdiv_equiv 24 128 _ _). cbn zeta.
+  generalize (Bdiv_correct 24 128 _ _ mode_NE A B NZ).
+  destruct (Rlt_bool_spec (Rabs (rnd (B2R A / B2R B))) (bpow radix2 128)) as [Hlt|Hge].
+  - intros (E1 & E2 & _). rewrite FA in E2. left. rewrite (rk_fin _ E2), E1. now split.
+  - intros E1. right. rewrite E1.
+    assert (Y : 0 <= rnd (B2R A / B2R B)).
+    { rewrite <- rnd_0. apply rnd_le. unfold Rdiv. assert (0 < / B2R B) by (apply Rinv_0_lt_compat; lra). nra. }
+    rewrite Rabs_pos_eq in Hge by easy.
+    assert (SB : Bsign B = false) by (destruct (Bsign B) eqn:S; [apply Bsign_true_le0 in S; lra|easy]).
+    destruct (Bsign A) eqn:SA; [|rewrite SB; split; [reflexivity|lra]].
+    exfalso. assert (B2R A <= 0) by now apply Bsign_true_le0.
+    replace (B2R A) with 0 in Hge by lra. unfold Rdiv in Hge. rewrite Rmult_0_l, rnd_0 in Hge.
+    assert (0 < bpow radix2 128) by apply bpow_gt_0. lra.
+Qed.
+
+Lemma fdiv_mono : forall e1 e2 s, num e1 -> num e2 -> num s -> 0 <= rk e1 -> rk e1 <= rk e2 -> rk e2 <= 1 -> 0 < rk s ->
+  rk (fdiv e1 s) <= rk (fdiv e2 s).
+Proof.
+  intros e1 e2 s H1 H2 Hs P1 L12 P2 Ps.
+  assert (G0 := BIG_pos). assert (G1 := BIG_gt).
+  destruct (fdiv_prob e1 s H1 Hs ltac:(lra) Ps) as (N1 & Q1 & _).
+  destruct (fdiv_prob e2 s H2 Hs ltac:(lra) Ps) as (N2 & Q2 & _).
+  destruct (is_inf s) eqn:Is.
+  { assert (s = pinf).
+    { destruct s as [ss|[|]| |ss ms es]; try easy. cbn [rk] in Ps. lra. }
+    subst s.
+    assert (Z : forall e, num e -> 0 <= rk e <= 1 -> rk (fdiv e pinf) = 0).
+    { intros e He Pe. destruct e as [se|[|]| |se me ee]; try (now destruct He); try (cbn [rk] in Pe; lra); reflexivity. }
+    rewrite (Z e1 H1), (Z e2 H2); lra. }
+  assert (X : rnd (rk e1 / rk s) <= rnd (rk e2 / rk s)).
+  { apply rnd_le. unfold Rdiv. apply Rmult_le_compat_r; [|easy]. apply Rlt_le, Rinv_0_lt_compat. lra. }
+  assert (R2 := rk_range _ N2).
+  destruct (fdiv_real e1 s H1 Hs ltac:(lra) Is Ps) as [[E1 B1]|[E1 B1]];
+  destruct (fdiv_real e2 s H2 Hs ltac:(lra) Is Ps) as [[E2 B2]|[E2 B2]].
+  - rewrite E1, E2. exact X.
+  - rewrite E1, E2, rk_pinf. apply Rabs_def2 in B1. lra.
+  - exfalso. apply Rabs_def2 in B2. lra.
+  - rewrite E1, E2. lra.
+Qed.
